@@ -1589,3 +1589,30 @@ class EpsSubgradient:
             x = x - g * sub
             best = min(best, M * float(np.linalg.norm(x - c)))
         return best, UC, "wc_epsilon_subgradient_method", p
+
+
+@family("alternate_projections")
+class AlternateProjections:
+    @staticmethod
+    def params(draw, L):
+        return {"n": draw(st.integers(1, 5))}
+
+    @staticmethod
+    def run(case, rng):
+        p, kind = case["params"], case["member"]
+        N = p["n"]
+        # two lines of R^2 through a common point xs (the feasibility problem has a solution), at an angle that is scanned:
+        # x0 at distance 1 from xs ; performance |x_n - P_{Q1} x_n|^2 with x_n in Q2
+        best = 0.0
+        angles = np.linspace(0.01, math.pi / 2 - 0.01, 400) if kind != "random2" else rng.uniform(0.01, math.pi / 2, size=40)
+        for th in angles:
+            u1 = np.array([1.0, 0.0])
+            u2 = np.array([math.cos(th), math.sin(th)])
+            for phi in (np.linspace(0, math.pi, 24) if kind == "extremal" else rng.uniform(0, math.pi, size=6)):
+                x = np.array([math.cos(phi), math.sin(phi)])
+                for _ in range(N):
+                    y = (x @ u1) * u1
+                    x = (y @ u2) * u2
+                r = x - (x @ u1) * u1
+                best = max(best, float(r @ r))
+        return best, "PEPit.examples.low_dimensional_worst_cases_scenarios", "wc_alternate_projections", p
